@@ -30,6 +30,7 @@ def gorName : Gor → String
   | .acceptAndServe => "AcceptAndServe"
   | .site .grpcKnocks => "GRPCBroker.Accept>GRPCBroker.Accept.func1"
   | .site .grpcTimeoutWait => "GRPCBroker.Run>GRPCBroker.timeoutWait"
+  | .site .grpcKnockExpiry => "GRPCBroker.Run>GRPCBroker.knockExpiry"
   | .site .muxTimeoutWait => "MuxBroker.Run>MuxBroker.timeoutWait"
   | .site .brokerCliSend => "gRPCBrokerClientImpl.StartStream>gRPCBrokerClientImpl.StartStream.func1"
   | .site .grpcCliBrokerRun => "newGRPCClient>GRPCBroker.Run"
